@@ -316,6 +316,7 @@ DoPublish(recs) ==
 
 \* append without commit (what a leader holds while replicas have not acknowledged)
 DoTail(recs) ==
+  /\ ~ro
   /\ log' = log \o recs
   /\ obs' = [a |-> "Tail", err |-> "", got |-> <<>>, st |-> ""]
   /\ UNCHANGED <<segs, hw, ro, subs>>
